@@ -502,7 +502,8 @@ func (e *env) forcedFailedRenewal() {
 	e.finish(s, evs, "C11.failed-renewal-burns-number")
 }
 
-// forcedAbort: a request whose context is already done.
+// forcedAbort: (1) a request whose context is already done must not consume a number (repaired);
+// (2) a request whose context ends after its number was drawn (held at send.numbered) still burns it.
 func (e *env) forcedAbort() {
 	s := e.open("forced-aborted-send", 300, 20*time.Second, false, nil)
 	if s == nil {
@@ -518,6 +519,34 @@ func (e *env) forcedAbort() {
 	}
 	s.sc.SendRequestWithTimeout(context.Background(), small(3), nil, 20*time.Second, nil)
 	s.p.waitWire(2, 20*time.Second)
+	if w, _ := s.p.snapshot(); len(w) == 2 && w[1].Seq != h.NextSeq(w[0].Seq) {
+		e.r.Fail(s.name+" (context done before the call)", "", fmt.Sprintf("a request whose context was already done consumed a sequence number: wire %s, %s", w[0], w[1]))
+	} else {
+		e.r.Hit("precancelled-send-draws-no-number")
+	}
+	// (2)
+	hold := s.ctl.BlockAt(func(ev *h.SendEv) bool { return ev.Name == "send.numbered" })
+	ctx2, cancel2 := context.WithCancel(context.Background())
+	defer cancel2()
+	done := make(chan error, 1)
+	go func() { done <- s.sc.SendRequestWithTimeout(ctx2, small(4), nil, 20*time.Second, nil) }()
+	if hold.WaitReached(20*time.Second) == nil {
+		e.r.InfraError = s.name + ": sender did not reach send.numbered"
+		return
+	}
+	cancel2()
+	hold.Release()
+	select {
+	case err := <-done:
+		if err == nil {
+			e.r.Notes = append(e.r.Notes, s.name+": the held request was sent although its context ended")
+		}
+	case <-time.After(20 * time.Second):
+		e.r.InfraError = s.name + ": held sender did not return"
+		return
+	}
+	s.sc.SendRequestWithTimeout(context.Background(), small(5), nil, 20*time.Second, nil)
+	s.p.waitWire(3, 20*time.Second)
 	evs := s.ctl.Events()
 	uasc.VerifSetHook(nil)
 	e.r.Hit("scenario:forced-aborted-send")
@@ -569,7 +598,7 @@ func main() {
 	}
 	defer d.Close()
 	e := &env{o, r, d}
-	r.Rule = "case = one channel scenario: (a) 2–6 concurrent request senders (1–3 chunk messages, 8 KiB chunks) racing with 0–2 Renew calls on a real client channel, (b) 2–6 concurrent response senders on a real server channel, (c) three forced interleavings (sender held between gate and pendingReq.Add across a renewal; unanswered OPN; request with a done context); the recorded verifPoint events are replayed through the Lean LTS, the model's wire must equal the chunks the peer received, the oracle (number = next of predecessor, messages contiguous) runs on the received chunks; non-trivial = at least two chunks; distinct by label sequence."
+	r.Rule = "case = one channel scenario: (a) 2–6 concurrent request senders (1–3 chunk messages, 8 KiB chunks) racing with 0–2 Renew calls on a real client channel, (b) 2–6 concurrent response senders on a real server channel, (c) three forced interleavings (sender held between gate and pendingReq.Add across a renewal; unanswered OPN; request whose context ends between numbering and writing, plus one whose context is done beforehand); the recorded verifPoint events are replayed through the Lean LTS, the model's wire must equal the chunks the peer received, the oracle (number = next of predecessor, messages contiguous) runs on the received chunks; non-trivial = at least two chunks; distinct by label sequence."
 	e.corpus()
 	if o.Replay != "" {
 		var seed uint64
